@@ -11,6 +11,13 @@ import (
 const maxInlineDepth = 6
 
 func (fr *Frame) evalCall(s *State, call *ast.CallExpr) []*Val {
+	n := len(fr.bigTemps)
+	res := fr.evalCall1(s, call)
+	fr.flushBigTemps(s, n)
+	return res
+}
+
+func (fr *Frame) evalCall1(s *State, call *ast.CallExpr) []*Val {
 	// conversion?
 	if tv, ok := fr.info.Types[call.Fun]; ok && tv.IsType() {
 		if len(call.Args) != 1 {
